@@ -353,6 +353,30 @@ def extras(ctx):
                 continue
             if back is not member or padded is not member:
                 ctx.violation(f"enum {member!r} -> {s!r} -> {back!r} / padded {padded!r}", {"enum": repr(member)})
+    # enumerations over numbers are matched in the VALUE space (an enumeration facet lists values, not spellings):
+    # every lexical form of a member's value selects that member - other exponents, signs, zero of either sign
+    class Zf(Enum):
+        ZERO = 0.0
+        HALF = 0.5
+        BIG = 1e3
+
+    class Zi(Enum):
+        ZERO = 0
+        SEVEN = 7
+
+    forms = {Zf.ZERO: ["0", "0.0", "-0", "-0.0", "+0.0", "0E0", "-0E0", ".0", "-.0", "0e5"], Zf.HALF: ["0.5", ".5", "5E-1", "+0.50", "0.5e0"],
+             Zf.BIG: ["1000", "1e3", "1E3", "1000.0", "+1.0E3", "0.1e4"], Zi.ZERO: ["0", "-0", "+0", "000"], Zi.SEVEN: ["7", "+7", "007"]}
+    for member, lits in forms.items():
+        for lex in lits:
+            for raw in (lex, f"\n {lex}\t"):
+                ctx.case(("enum-number", type(member).__name__, member.name, raw))
+                try:
+                    back = converter.deserialize(raw, [type(member)])
+                except Exception as ex:  # noqa: BLE001
+                    ctx.violation(f"enum over numbers {member!r}: lexical form {raw!r} of its value is refused: {type(ex).__name__}: {ex}", {"enum": repr(member), "literal": raw})
+                    continue
+                if back is not member:
+                    ctx.violation(f"enum over numbers {member!r}: lexical form {raw!r} of its value gives {back!r}", {"enum": repr(member), "literal": raw})
     # enums whose members need the keyword arguments of the member converter: a QName member written with a PREFIX
     # (resolved through the prefix map), a bytes member in base16 / base64
     for member in QE:
